@@ -104,14 +104,16 @@ def check(run):
 
     # ---------------------------------------------------------------- R
     # (name, overrides of Layer_gen.cfg, walks: None = cover every edge, n = a sample of n covering walks)
-    gens = [("one", {"NH": "2", "MaxR": "2", "MaxFault": "1"}, None),
-            ("extras", {"NH": "2", "MaxR": "2", "MaxFault": "0", "Extras": "TRUE"}, None)]
+    gens = [("faults", {"NH": "2", "MaxR": "2", "MaxFault": "1", "MaxBreak": "0"}, None),
+            ("conn1", {"NH": "1", "MaxR": "2", "MaxFault": "0", "MaxBreak": "1"}, None),
+            ("extras", {"NH": "1", "MaxR": "2", "MaxFault": "1", "MaxBreak": "0", "Extras": "TRUE"}, None)]
     if thorough:
-        gens = [("one3", {"NH": "2", "MaxR": "3", "MaxFault": "1"}, None),
-                ("one2f", {"NH": "2", "MaxR": "2", "MaxFault": "2"}, None),
-                ("extras", {"NH": "2", "MaxR": "2", "MaxFault": "1", "Extras": "TRUE"}, None),
-                ("three", {"NH": "3", "MaxR": "3", "MaxFault": "1"}, 400),
-                ("two", {"Names": AB, "NH": "2", "MaxR": "2", "MaxFault": "0"}, 400)]
+        gens = [("one3", {"NH": "2", "MaxR": "3", "MaxFault": "1", "MaxBreak": "0"}, None),
+                ("one2f", {"NH": "2", "MaxR": "2", "MaxFault": "2", "MaxBreak": "0"}, None),
+                ("conn2", {"NH": "2", "MaxR": "2", "MaxFault": "1", "MaxBreak": "1"}, None),
+                ("extras", {"NH": "2", "MaxR": "2", "MaxFault": "0", "MaxBreak": "1", "Extras": "TRUE"}, None),
+                ("three", {"NH": "3", "MaxR": "3", "MaxFault": "1", "MaxBreak": "1"}, 400),
+                ("two", {"Names": AB, "NH": "2", "MaxR": "2", "MaxFault": "0", "MaxBreak": "1"}, 400)]
     jobs = []
     exhaustive = True
     graphs = par(run, [(lambda ov=ov: run.tlc_edges("LayerGen", "Layer_gen.cfg", ov, timeout=2400)) for _, ov, _ in gens])
